@@ -3,7 +3,6 @@
    Vocabulary (all in Qos/*Model.v):
      reader_incompatible w r / writer_incompatible r w : the two functions of discovery_methods.rs
      dds_rxo, spec_policy_fails, spec_failing           : DDS 1.4 request/offered table
-     known_rxo (= known_liveliness || known_presentation): the two recorded defect classes
      fnmatch_to_regex, compile, reps_match, partition_matched : translator, regex crate, partition test
      fnmatch, dds_partition_match                       : POSIX fnmatch, DDS 1.4 PARTITION rule
      writer_side / reader_side                          : the decision of the two call sites
@@ -15,16 +14,16 @@ Open Scope Z_scope.
 
 (* ---- request/offered QoS ---- *)
 
-(* get_discovered_reader_incompatible_qos_policy_list returns the empty list (the pair gets
-   matched) exactly when every RxO policy is compatible per the DDS table: all kinds, all
-   normalized durations, outside the two recorded defect classes *)
+(* get_discovered_reader_incompatible_qos_policy_list (as fixed by f03d4da and 908a0e8) returns
+   the empty list (the pair gets matched) exactly when every RxO policy is compatible per the
+   DDS table -- liveliness kind and lease separately: all kinds, all normalized durations *)
 Theorem C15_reader_side_eq_spec :
-  forall w r, eqos_normalized w -> eqos_normalized r -> known_rxo w r = false ->
+  forall w r, eqos_normalized w -> eqos_normalized r ->
     (reader_incompatible w r = [] <-> dds_rxo w r = true).
 Proof. exact reader_side_eq_spec. Qed.
 
 Theorem C15_writer_side_eq_spec :
-  forall r w, eqos_normalized w -> eqos_normalized r -> known_rxo w r = false ->
+  forall r w, eqos_normalized w -> eqos_normalized r ->
     (writer_incompatible r w = [] <-> dds_rxo w r = true).
 Proof. exact writer_side_eq_spec. Qed.
 
@@ -36,12 +35,12 @@ Proof. exact both_sides_permutation. Qed.
 
 (* the reported list names exactly the failing policies, each once *)
 Theorem C15_reader_reported_policies_exact :
-  forall w r, eqos_normalized w -> eqos_normalized r -> known_rxo w r = false ->
+  forall w r, eqos_normalized w -> eqos_normalized r ->
     forall id, In id (reader_incompatible w r) <-> spec_policy_fails id w r = true.
 Proof. exact reader_reported_policies_exact. Qed.
 
 Theorem C15_writer_reported_policies_exact :
-  forall r w, eqos_normalized w -> eqos_normalized r -> known_rxo w r = false ->
+  forall r w, eqos_normalized w -> eqos_normalized r ->
     forall id, In id (writer_incompatible r w) <-> spec_policy_fails id w r = true.
 Proof. exact writer_reported_policies_exact. Qed.
 
@@ -49,39 +48,20 @@ Theorem C15_reported_policies_no_duplicates :
   forall w r, NoDup (reader_incompatible w r) /\ NoDup (writer_incompatible r w).
 Proof. exact (fun w r => conj (NoDup_reader_incompatible w r) (NoDup_writer_incompatible r w)). Qed.
 
-(* complete characterisation, defect classes included: a policy is reported iff the standard
-   fails it, EXCEPT inside that policy's class where the code says the opposite; so the two
-   classes are exactly the pairs on which the code is wrong, policy by policy *)
-Theorem C15_reported_policies_characterised :
-  forall w r, eqos_normalized w -> eqos_normalized r ->
-    forall id, In id (reader_incompatible w r) <->
-               xorb (spec_policy_fails id w r) (known_for id w r) = true.
-Proof. exact reader_reported_policies_characterised. Qed.
-
 (* the derived (sec, nanosec) order is the order of the lengths exactly on normalized values *)
 Theorem C15_duration_order_is_length_order :
   forall a b, duration_normalized a -> duration_normalized b ->
     duration_pcmp a b = Some (duration_ns a ?= duration_ns b).
 Proof. exact duration_pcmp_ns. Qed.
 
-(* D18, liveliness: with equal kinds an offered lease of 20 s against a requested 10 s is
-   matched by both functions although the standard says incompatible ... *)
-Theorem C15_liveliness_class_false_match :
-  exists w r, eqos_normalized w /\ eqos_normalized r /\ known_liveliness w r = true /\
-    reader_incompatible w r = [] /\ writer_incompatible r w = [] /\ dds_rxo w r = false.
-Proof. exact (ex_intro _ _ (ex_intro _ _ liveliness_false_match)). Qed.
-
-(* ... and 10 s against 20 s is reported as incompatible LIVELINESS although compatible *)
-Theorem C15_liveliness_class_false_incompatibility :
-  exists w r, eqos_normalized w /\ eqos_normalized r /\ known_liveliness w r = true /\
-    reader_incompatible w r = [LIVELINESS_ID] /\ writer_incompatible r w = [LIVELINESS_ID] /\ dds_rxo w r = true.
-Proof. exact (ex_intro _ _ (ex_intro _ _ liveliness_false_incompatibility)). Qed.
-
-(* D18, presentation: coherent_access offered and not requested is reported incompatible *)
-Theorem C15_presentation_class_false_incompatibility :
-  exists w r, eqos_normalized w /\ eqos_normalized r /\ known_presentation w r = true /\
-    reader_incompatible w r = [PRESENTATION_ID] /\ writer_incompatible r w = [PRESENTATION_ID] /\ dds_rxo w r = true.
-Proof. exact (ex_intro _ _ (ex_intro _ _ presentation_false_incompatibility)). Qed.
+(* regression: the inputs on which the code before f03d4da / 908a0e8 was wrong (D18) *)
+Example C15_fixed_defects_regression :
+  reader_incompatible (with_lease qdefault Automatic 20) (with_lease qdefault Automatic 10) = [LIVELINESS_ID] /\
+  writer_incompatible (with_lease qdefault Automatic 10) (with_lease qdefault Automatic 20) = [LIVELINESS_ID] /\
+  reader_incompatible (with_lease qdefault Automatic 10) (with_lease qdefault Automatic 20) = [] /\
+  reader_incompatible (with_presentation qdefault (mkpresentation ScopeInstance true false)) qdefault = [] /\
+  writer_incompatible qdefault (with_presentation qdefault (mkpresentation ScopeInstance true false)) = [].
+Proof. exact fixed_defects_regression. Qed.
 
 (* ---- partitions ---- *)
 
@@ -133,7 +113,8 @@ Theorem C15_both_sides_agree :
 Proof. exact both_sides_agree. Qed.
 
 (* matched iff topic names equal, types compatible, partitions match per DDS, every RxO
-   policy compatible per the DDS table *)
+   policy compatible per the DDS table; config_known is now only the four partition
+   deviation classes (known_partition of the two name lists) *)
 Theorem C15_writer_side_matched_iff_spec :
   forall c, config_in_domain c = true -> config_known c = false ->
     (writer_side c = Some VMatched <-> dds_should_match c = true).
@@ -185,11 +166,7 @@ Print Assumptions C15_both_functions_agree.
 Print Assumptions C15_reader_reported_policies_exact.
 Print Assumptions C15_writer_reported_policies_exact.
 Print Assumptions C15_reported_policies_no_duplicates.
-Print Assumptions C15_reported_policies_characterised.
 Print Assumptions C15_duration_order_is_length_order.
-Print Assumptions C15_liveliness_class_false_match.
-Print Assumptions C15_liveliness_class_false_incompatibility.
-Print Assumptions C15_presentation_class_false_incompatibility.
 Print Assumptions C15_translator_is_fnmatch.
 Print Assumptions C15_partition_match_eq_spec.
 Print Assumptions C15_partition_roles_symmetric.
